@@ -1,5 +1,6 @@
 import PynencModel.Props.C14
-open Pynenc.C14
+import PynencModel.Props.C14Shape
+open Pynenc.C14 Pynenc.C14S
 #print axioms iteration_live
 #print axioms iteration_forgets_dead
 #print axioms iteration_keeps_alive
@@ -19,3 +20,4 @@ open Pynenc.C14
 #print axioms reports_are_own_workers
 #print axioms unfixed_loop_refuted
 #print axioms multi_queue_may_sit_below_min
+#print axioms code_prunes_the_dead_and_refills_unconditionally
